@@ -17,6 +17,13 @@ func (n *Nodis) newStr() ds.Value {
 // Set a key with a value and a TTL
 func (n *Nodis) Set(key string, value []byte, keepTTL bool) {
 	_ = n.exec(func(tx *Tx) error {
+		n.set(tx, key, value, keepTTL)
+		return nil
+	})
+}
+
+func (n *Nodis) set(tx *Tx, key string, value []byte, keepTTL bool) {
+	{
 		meta := tx.writeKey(key, n.newStr)
 		meta.value.(*str.String).Set(value)
 		if !keepTTL {
@@ -26,8 +33,7 @@ func (n *Nodis) Set(key string, value []byte, keepTTL bool) {
 		n.notify(func() []patch.Op {
 			return []patch.Op{{Type: patch.OpTypeSet, Data: &patch.OpSet{Key: key, Value: value, KeepTTL: keepTTL}}}
 		})
-		return nil
-	})
+	}
 }
 
 // GetSet set a key with a value and return the old value
@@ -362,7 +368,32 @@ func (n *Nodis) MSet(pairs ...string) {
 	if len(pairs)%2 != 0 {
 		return
 	}
-	for i := 0; i < len(pairs); i += 2 {
-		n.Set(pairs[i], []byte(pairs[i+1]), false)
-	}
+	_ = n.exec(func(tx *Tx) error {
+		keys := make([]string, 0, len(pairs)/2)
+		for i := 0; i < len(pairs); i += 2 {
+			keys = append(keys, pairs[i])
+		}
+		tx.lockKeys(keys)
+		for i := 0; i < len(pairs); i += 2 {
+			n.set(tx, pairs[i], []byte(pairs[i+1]), false)
+		}
+		return nil
+	})
+}
+
+// MGet returns the values of the given keys (nil for a key that does not exist), all read at one instant
+func (n *Nodis) MGet(keys ...string) [][]byte {
+	values := make([][]byte, len(keys))
+	_ = n.exec(func(tx *Tx) error {
+		tx.lockKeys(nil, keys...)
+		for i, key := range keys {
+			meta := tx.readKey(key)
+			if !meta.isOk() {
+				continue
+			}
+			values[i] = meta.value.(*str.String).Get()
+		}
+		return nil
+	})
+	return values
 }
